@@ -601,7 +601,8 @@ func (e *Engine) modelFor(fn *ssa.Function) modelFn {
 }
 
 var skipInit = map[string]bool{
-	"runtime": true, "syscall": true, "os": true, "reflect": true, "internal/poll": true,
+	"runtime": true, "syscall": true, "vendor/golang.org/x/sys/cpu": true, "golang.org/x/sys/cpu": true, "vendor/golang.org/x/crypto/chacha20poly1305": true,
+	"vendor/golang.org/x/crypto/sha3": true, "vendor/golang.org/x/crypto/internal/poly1305": true, "os": true, "reflect": true, "internal/poll": true,
 	"internal/cpu": true, "internal/godebug": true, "internal/syscall/unix": true,
 	"os/signal": true, "net": true, "crypto/tls": true, "crypto/x509": true, "net/http": true,
 	"internal/testlog": true, "runtime/debug": true, "runtime/trace": true, "runtime/pprof": true,
